@@ -226,6 +226,21 @@ def check_framing(ctx):
            "the frame bytes are popped without waiting for / testing the full frame size: a frame cut by TCP segmentation is decoded from a short slice", key="complete-before-consume", where=f.where)
     # loop guard
     heads = [n for n in cfg.nodes if n.kind == "test" and n.label == "while"]
+    if not heads and not any(isinstance(x, (ast.While, ast.For)) for x in ast.walk(fn)):
+        # straight-line framing: one frame per call.  Unless a caller repeats the call while bytes are buffered, the
+        # frames behind the first one of a segment stay in the buffer until unrelated traffic wakes the receiver again.
+        recursive = any(call_name(c) == "self._process_received_data" for c in calls_in(fn))
+        repeating_callers = []
+        for g in repo.functions:
+            if g.node is f.node:
+                continue
+            for w in ast.walk(g.node):
+                if isinstance(w, ast.While) and "_receive_buffer" in norm(w.test) and any((call_name(c) or "").endswith("._process_received_data") for c in calls_in(w)):
+                    repeating_callers.append(g.qualname)
+        ctx.require(not recursive and not repeating_callers, f"{q}: framing without a loop in the function (recursive={recursive}, repeating callers={repeating_callers})")
+        ctx.ob("C04.P1", q, False, "after one frame was consumed the function returns without looking at the buffer again and no caller repeats the call while bytes are buffered: "
+               "further complete frames of the same segment stay unframed until other traffic wakes the receiver", key="loop-guard", where=f.where)
+        return
     ctx.require(len(heads) == 1, f"{q}: framing loop not found")
     H = heads[0]
     t = H.ast
